@@ -219,7 +219,29 @@ def check(ctx: Ctx) -> list[RuleResult]:
                         par = getattr(n, "parent", None)
                         sibs = par.body if isinstance(par, ast.If) and n in par.body else []
                         guard = [s for s in sibs[: sibs.index(n)] if isinstance(s, ast.If) and any(isinstance(b, ast.Raise) and "SystemSchemaInconsistent" in norm(b) for b in s.body) and "is not child" in norm(s.test)] if sibs else []
+                        alias_problem = None
                         if guard and norm(v) == "child":
+                            # the change check must look at the field that is written: a *view* of it (a property) is only as good
+                            # if it is a pure alias - a view that can answer None while the field is set lets a second device in
+                            for cmp_ in ast.walk(guard[0].test):
+                                if isinstance(cmp_, ast.Compare) and len(cmp_.ops) == 1 and isinstance(cmp_.ops[0], ast.IsNot) and norm(cmp_.comparators[0]) == "child" and isinstance(cmp_.left, ast.Attribute) and norm(cmp_.left.value) == "self" and cmp_.left.attr != t.attr:
+                                    pname = cmp_.left.attr
+                                    for ci in repo.classes.values():
+                                        if not ci.module.name.startswith("ramses_rf"):
+                                            continue
+                                        pm = ci.methods.get(pname)
+                                        if pm is None or not pm.is_property:
+                                            continue
+                                        writes_field = any(isinstance(x, ast.Attribute) and x.attr == t.attr for k in ci.mro for m in k.methods.values() for x in ast.walk(m.node)) or True
+                                        body = [b for b in pm.node.body if not (isinstance(b, ast.Expr) and isinstance(b.value, ast.Constant) and isinstance(b.value.value, str))]
+                                        pure = len(body) == 1 and isinstance(body[0], ast.Return) and body[0].value is not None and norm(body[0].value) == f"self.{t.attr}"
+                                        reads_field = any(isinstance(x, ast.Attribute) and x.attr == t.attr for x in ast.walk(pm.node))
+                                        if writes_field and reads_field and not pure:
+                                            alias_problem = (pm, pname)
+                        if alias_problem is not None:
+                            pm, pname = alias_problem
+                            r1.fail(f"{f.short}:{norm(t)}:change-check-on-a-view", pm.loc(), f"Parent._add_child's change check for {norm(t)} reads the property `{pname}`, and {pm.short} is not a pure alias of {norm(t)} (it can return something else, e.g. None for a sensor that is not 'present'): a zone that already has a sensor then accepts a second one without SystemSchemaInconsistent")
+                        elif guard and norm(v) == "child":
                             r1.ok({"write": f"_add_child: {norm(n)}", "guard": norm(guard[0].test)[:60]})
                         else:
                             r1.fail(f"{f.short}:{norm(t)}:no-change-check", f.loc(n), f"Parent._add_child sets {norm(t)} without first raising SystemSchemaInconsistent when it is already set to a different device")
@@ -424,4 +446,99 @@ def check(ctx: Ctx) -> list[RuleResult]:
     if r5.instances == 0:
         raise AnalysisError("Parent._add_child: no role assignment found")
     out.append(r5)
+
+    # ---- R6 ---------------------------------------------------------------------------
+    # "at every moment the schema the gateway reports ...": a schema view computes from the live topology. A view that remembers
+    # its answer is only current if every writer of everything the answer was built from forgets it again (zone classes change by
+    # `self.__class__ = ...`, sensors/actuators in _add_child, ...); anything less reports a schema that re-loads differently
+    r6 = RuleResult("R6", "schema views are current", "no schema view is served from a memo unless every writer of its inputs resets the memo", min_instances=6)
+    MUT = {"append", "remove", "clear", "pop", "extend", "insert", "update", "add", "discard", "setdefault", "popitem"}
+    views = [f for f in repo.funcs.values() if f.module.name.startswith("ramses_rf") and f.name in ("schema", "_schema_min") and f.is_property and f.parent is None]
+    if len(views) < 6:
+        raise AnalysisError(f"only {len(views)} schema views found")
+
+    def writers_of(attr: str) -> list:
+        res = []
+        for g in repo.funcs.values():
+            if not g.module.name.startswith("ramses_rf") or g.name == "__init__":
+                continue
+            for x in own_nodes(g.node):
+                hit = False
+                if isinstance(x, ast.Attribute) and x.attr == attr and isinstance(x.ctx, (ast.Store, ast.Del)):
+                    hit = True
+                elif isinstance(x, ast.Call) and isinstance(x.func, ast.Attribute) and x.func.attr in MUT and isinstance(x.func.value, ast.Attribute) and x.func.value.attr == attr:
+                    hit = True
+                elif isinstance(x, ast.Subscript) and isinstance(x.ctx, (ast.Store, ast.Del)) and isinstance(x.value, ast.Attribute) and x.value.attr == attr:
+                    hit = True
+                if hit:
+                    res.append((g, x))
+                    break
+        return res
+
+    for v in views:
+        r6.instances += 1
+        r6.nontrivial += 1
+        if any("cache" in d for d in v.decorators):
+            r6.fail(f"{v.short}:cached", v.loc(), f"{v.short} is wrapped in a cache decorator: the schema reported would be the one of the first read")
+            continue
+        memo_writes = [x for x in own_nodes(v.node) if isinstance(x, (ast.Assign, ast.AnnAssign)) and any(isinstance(t, ast.Attribute) and isinstance(t.value, ast.Name) and t.value.id == "self" for t in (x.targets if isinstance(x, ast.Assign) else [x.target]))]
+        if not memo_writes:
+            r6.ok({"view": v.short, "memoised": False})
+            continue
+        problems = []
+        for mw_ in memo_writes:
+            memo = next(t.attr for t in (mw_.targets if isinstance(mw_, ast.Assign) else [mw_.target]) if isinstance(t, ast.Attribute))
+            inputs: set[str] = set()
+            for x in ast.walk(mw_.value):
+                if isinstance(x, ast.Attribute) and isinstance(x.value, ast.Name) and x.value.id == "self" and x.attr != memo:
+                    pm = next((k.methods[x.attr] for k in (v.cls.mro if v.cls else []) if x.attr in k.methods and k.methods[x.attr].is_property), None)
+                    if pm is None:
+                        inputs.add(x.attr)
+                    else:
+                        for y in own_nodes(pm.node):
+                            if isinstance(y, ast.Attribute) and isinstance(y.value, ast.Name) and y.value.id == "self":
+                                if y.attr.isupper() or y.attr.startswith("_") and y.attr[1:].isupper() or y.attr == "__class__":
+                                    inputs.add("__class__")  # class-level data: changes when the object is re-classed
+                                else:
+                                    inputs.add(y.attr)
+            for a in sorted(inputs):
+                for g, x in writers_of(a):
+                    resets = any(isinstance(z, ast.Assign) and any(isinstance(t, ast.Attribute) and t.attr == memo for t in z.targets) and isinstance(z.value, ast.Constant) and z.value.value is None for z in own_nodes(g.node))
+                    if not resets and g is not v:
+                        problems.append(f"{g.short} writes {a if a != '__class__' else 'the object class'} (`{norm(x)[:40]}`) without resetting {memo}")
+        if problems:
+            r6.fail(f"{v.short}:stale-memo", v.loc(memo_writes[0]), f"{v.short} serves a remembered answer that is not reset by every writer of what it was built from: {'; '.join(sorted(set(problems))[:3])}: after such a write the schema reported is no longer the topology, and re-loads into different zones")
+        else:
+            r6.ok({"view": v.short, "memoised": True, "reset_by_every_writer": True})
+    out.append(r6)
+
+    # ---- R7 ---------------------------------------------------------------------------
+    # re-loadable: each role of a schema node is loaded independently of the others. A loader that walks a table of roles and leaves
+    # the walk (break/return) when one role is empty never loads the roles after it: {hotwater_valve: X} without a sensor, ...
+    r7 = RuleResult("R7", "schema loaders load every role independently", "no `_update_schema` leaves a loop over its table of roles because one role is absent", min_instances=3)
+    loaders = [f for f in repo.funcs.values() if f.module.name.startswith("ramses_rf") and f.name in ("_update_schema", "load_schema", "load_tcs", "_load_schema") and f.parent is None]
+    if len(loaders) < 3:
+        raise AnalysisError(f"only {len(loaders)} schema loaders found")
+    for f in loaders:
+        r7.instances += 1
+        r7.nontrivial += 1
+        bad7 = []
+        for lp in own_nodes(f.node):
+            if isinstance(lp, ast.For) and isinstance(lp.iter, (ast.Tuple, ast.List)):
+                for x in ast.walk(lp):
+                    if isinstance(x, (ast.Break, ast.Return)) and x is not lp:
+                        # inside a nested function? (own_nodes of f excludes them, ast.walk does not)
+                        q = getattr(x, "parent", None)
+                        inner = False
+                        while q is not None and q is not lp:
+                            if isinstance(q, (ast.FunctionDef, ast.AsyncFunctionDef, ast.Lambda)) or (isinstance(q, (ast.For, ast.While)) and isinstance(x, ast.Break)):
+                                inner = True
+                            q = getattr(q, "parent", None)
+                        if not inner:
+                            bad7.append(x)
+        if bad7:
+            r7.fail(f"{f.short}:role-walk-abandoned", f.loc(bad7[0]), f"{f.short} leaves its walk over the table of roles with `{norm(bad7[0])}`: when one role is absent from the schema the roles after it are never loaded, so a reported schema with (say) a valve but no sensor re-loads without the valve")
+        else:
+            r7.ok({"loader": f.short, "role_walks_abandoned": 0})
+    out.append(r7)
     return out
